@@ -358,7 +358,24 @@ class ConvexPolyhedron(GeoBody):
 
     def __eq__(self, other):
         if isinstance(other, ConvexPolyhedron):
-            return hash(self) == hash(other)
+            # Equal hashes do not imply equal polyhedra (CPython has
+            # hash(-1) == hash(-2), so the hashes of lattice points collide):
+            # compare the vertex sets and the face sets themselves.
+            self_points = list(self.point_set)
+            other_points = list(other.point_set)
+            for point in self_points:
+                if point not in other_points:
+                    return False
+            for point in other_points:
+                if point not in self_points:
+                    return False
+            for polygon in self.convex_polygons:
+                if polygon not in other.convex_polygons:
+                    return False
+            for polygon in other.convex_polygons:
+                if polygon not in self.convex_polygons:
+                    return False
+            return True
         else:
             return False
 
